@@ -191,9 +191,9 @@ end Bank
 
 /-! ## Pure kernels -/
 
-/-- `CalculateGaugeRewards`, one coin: `amount.Mul(weight.Quo(total)).TruncateInt()` on LegacyDec -/
-def streamShare (amount weight total : Nat) : Nat :=
-  ((Dec.ofInt amount).mul ((Dec.ofInt weight).quo (Dec.ofInt total))).truncateInt.toNat
+/-- `CalculateGaugeRewards`, one coin: `coin.Amount.Mul(record.Weight).Quo(totalWeight)` on math.Int
+    (multiply before dividing; repaired by fix D1) -/
+def streamShare (amount weight total : Nat) : Nat := amount * weight / total
 
 /-- `CalculateGaugeRewards` over all coins of `EpochCoins` (zero and non-positive results are skipped,
     i.e. contribute 0) -/
@@ -529,9 +529,19 @@ def saveStreams (epochEnd : Bool) : List Stream → State → Res
       | .ok s1 => saveStreams epochEnd rest s1
     else saveStreams epochEnd rest (setStream s st)
 
+/-- `slices.SortFunc(streams, CmpStreams)` (fix D2): ids are distinct, so any sorting algorithm gives
+    this list -/
+def insertById (st : Stream) : List Stream → List Stream
+  | [] => [st]
+  | x :: xs => if st.id ≤ x.id then st :: x :: xs else x :: insertById st xs
+
+def sortById : List Stream → List Stream
+  | [] => []
+  | x :: xs => insertById x (sortById xs)
+
 /-- x/streamer `Keeper.Distribute(epochPointers, streams, maxOperations, epochEnd)` -/
 def strDistribute (s : State) (epochIds : List Nat) (streams : List Stream) (maxOps : Nat) (epochEnd : Bool) : Res :=
-  let (_, c, ps) := ptrLoop s maxOps (sortByDuration epochIds) 0 ⟨streams, [], []⟩ s.ptrs
+  let (_, c, ps) := ptrLoop s maxOps (sortByDuration epochIds) 0 ⟨sortById streams, [], []⟩ s.ptrs
   let s1 := { s with ptrs := ps }
   let bank? := if c.distributed.isZero then some s1.bank else s1.bank.send streamerAddr incAddr c.distributed
   match bank? with
@@ -549,26 +559,25 @@ def streamerEndBlock (s : State) : Res :=
 
 def activeStreamsFor (s : State) (e : Nat) : List Stream := (activeStreams s).filter (·.epochId == e)
 
-/-- streamer `AfterEpochEnd` -/
+/-- streamer `AfterEpochEnd` (fix D3: no early return, the pointer is reset at every epoch end) -/
 def streamerAfterEpochEnd (s : State) (e : Nat) : Res :=
-  let act := activeStreamsFor s e
-  if act.isEmpty then .ok s else
-  match strDistribute s [e] act maxU64 true with
+  match strDistribute s [e] (activeStreamsFor s e) maxU64 true with
   | .error x => .error x
   | .ok s' => .ok { s' with ptrs := s'.ptrs.set e Pointer.first }
 
-/-- `moveUpcomingStreamToActiveStream` for all due upcoming streams (iterating a snapshot) -/
-def activateDue : List Stream → State → Res
+/-- `moveUpcomingStreamToActiveStream` for all due upcoming streams of this epoch identifier
+    (iterating a snapshot; fix D3: a stream starts together with its own epoch) -/
+def activateDue (e : Nat) : List Stream → State → Res
   | [], s => .ok s
   | st :: rest, s =>
-    if st.start ≤ s.now then
+    if st.epochId == e && decide (st.start ≤ s.now) then
       match Refs.del s.upcoming st.start st.id with
       | none => .error .err
       | some u =>
         match Refs.add s.active st.start st.id with
         | none => .error .err
-        | some a => activateDue rest { s with upcoming := u, active := a }
-    else activateDue rest s
+        | some a => activateDue e rest { s with upcoming := u, active := a }
+    else activateDue e rest s
 
 /-- `UpdateStreamAtEpochStart` for the active streams of the epoch; `Coins.Sub` may panic -/
 def startStreams : List Stream → State → Res
@@ -585,7 +594,7 @@ def startStreams : List Stream → State → Res
 
 /-- streamer `BeforeEpochStart` -/
 def streamerBeforeEpochStart (s : State) (e : Nat) : Res :=
-  match activateDue (upcomingStreams s) s with
+  match activateDue e (upcomingStreams s) s with
   | .error x => .error x
   | .ok s1 => startStreams (activeStreamsFor s1 e) s1
 
@@ -719,21 +728,32 @@ def createStream (s : State) (coins : Coins) (recs : List Rec) (start epochId nu
       | none => (.err, s)
       | some u => (.ok, { s with streams := s.streams ++ [st], upcoming := u })
 
-/-- `TerminateStreamProposal` -/
+/-- `moveStreamToFinishedStream` from the given list -/
+def moveToFinished (s : State) (fromActive : Bool) (st : Stream) : Option State :=
+  match Refs.del (if fromActive then s.active else s.upcoming) st.start st.id with
+  | none => none
+  | some r =>
+    match Refs.add s.finished st.start st.id with
+    | none => none
+    | some f => if fromActive then some { s with active := r, finished := f } else some { s with upcoming := r, finished := f }
+
+/-- `TerminateStreamProposal` (fix D3: a started stream may still be in the upcoming list) -/
 def terminateStream (s : State) (id : Nat) : Out × State :=
   match getStream s id with
   | none => (.err, s)
   | some st =>
     if st.isFinished s.now then (.err, s) else
-    let src := if st.isActive s.now then s.active else s.upcoming
-    match Refs.del src st.start st.id with
-    | none => (.err, s)
-    | some r =>
-      match Refs.add s.finished st.start st.id with
+    if st.isActive s.now then
+      match moveToFinished s true st with
+      | some s' => (.ok, s')
+      | none =>
+        match moveToFinished s false st with
+        | some s' => (.ok, s')
+        | none => (.err, s)
+    else
+      match moveToFinished s false st with
+      | some s' => (.ok, s')
       | none => (.err, s)
-      | some f =>
-        if st.isActive s.now then (.ok, { s with active := r, finished := f })
-        else (.ok, { s with upcoming := r, finished := f })
 
 /-- `ReplaceStreamDistributionProposal` -/
 def replaceDistr (s : State) (id : Nat) (recs : List Rec) : Out × State :=
